@@ -33,7 +33,8 @@ Definition returned (o : op) (r : outcome out) : list elem :=
   | (OPushBack _ | OPushFront _ | OTryPushBack _ | OTryPushFront _
     | OPopBack | OPopFront | ORemove _ | OSwapRemoveBack _ | OSwapRemoveFront _),
     Ok (OutOpt (Some e)) => [e]
-  | (ODrain _ _ _ _ | OIntoIter _), Ok (OutScript rs) => sres_items rs
+  | (ODrain _ _ _ _ | OIntoIter _ | ODrainDebug _ _ _ | OIntoIterDebug _), Ok (OutScript rs) =>
+    sres_items rs
   | OToVec, Ok (OutList v) => v
   | _, _ => []
   end.
